@@ -66,6 +66,9 @@ func byteTerm(b value) *sym.Term {
 	case uint8:
 		return sym.BVConst(8, uint64(b))
 	case sv:
+		if b.T.Sort.K == sym.KInt {
+			return sym.Int2BV(8, b.T)
+		}
 		return b.T
 	}
 	panic("byteTerm: not a byte")
